@@ -1,74 +1,140 @@
 import os
 from vlib.runner import Ob
-from vlib.props.C19 import PROPOSED_PATCH as C19_PATCH, STUBS, UB_IGNORE
+from vlib.props.C19 import STUBS, UB_IGNORE
 
-# proposed patches (C18_PROPOSED_PATCH=1 or C19_PROPOSED_PATCH=1: scratch copies only)
-PROPOSED_PATCH = {k: list(v) for k, v in C19_PATCH.items()}
-PROPOSED_PATCH["daemon/proxyd.c"] = PROPOSED_PATCH["daemon/proxyd.c"] + [
-    # F. a frame may fill every line of the buffer
-    (r"assert\(p_buf->line_count < p_buf->max_lines\);", "assert(p_buf->line_count <= p_buf->max_lines);"),
-    # I. force-free drops only the oldest frame: the head must be sampled before the loop (releasing it makes the next frame the head,
-    #    and clients later in the list that are waiting for THAT frame would lose it too)
-    (r"for \(req = proxy\.p_clnts; req != NULL; req = req->p_next\)\n(\s*)\{\n(\s*)if \(req->p_sliced == p_proxy_dev->p_sliced\)",
-     "PROXY_QUEUE * p_head = p_proxy_dev->p_sliced;\n\\1for (req = proxy.p_clnts; req != NULL; req = req->p_next)\n\\1{\n\\2if (req->p_sliced == p_head)"),
-    # G. reference accounting follows the cursors: a client with frames still pending references the new frame too,
-    #    even if a service re-computation (norm change, other client's request) left it without granted services
-    (r"\(req->state == REQ_STATE_FORWARD\) &&\n(\s*)\(req->all_services != 0\) \)",
-     "(req->state == REQ_STATE_FORWARD) &&\n\\1((req->all_services != 0) || (req->p_sliced != NULL)) )"),
-]
+# Defects of daemon/proxyd.c found by these obligations (F, I: repaired in /repo by 250f3c7 / 5559cc9; G, K: proposed fixes in the report):
+#  F. forward_data asserted line_count < max_lines: a frame with data on every scanned line aborted the daemon           (queue_capture_step)
+#  I. queue_force_free compared against the moving queue head: an overflow dropped more than the oldest frame              (queue_capture_step, seq_overflow)
+#  G. forward_data counts a client for a new frame only if all_services != 0, although a client whose cursor is still in
+#     the queue walks onto that frame (its services were revoked by a re-computation another client caused)                (queue_capture_step, seq_revoke)
+#  K. stop_acquisition frees the queued frames without resetting the cursors of the clients                                (service_step, seq_revoke)
 
 M = ["c19_io.c"]
 U = ["src/inout.c", "src/misc.c"]
+C18_STUBS = STUBS + ["solver build: the sliced indication buffer is allocated with the size of its TYPE (VBIPROXY_MSG) + guard bytes behind the size the daemon "
+                     "asked for (cbmc's whole-member bounds check on p_msg->body is fatal otherwise); the native replay build uses the real malloc under ASan"]
 
 
 def obligations(tier, seed):
-    patch = PROPOSED_PATCH if (os.environ.get("C18_PROPOSED_PATCH") == "1" or os.environ.get("C19_PROPOSED_PATCH") == "1") else None
     RB = ["vbi_proxyd_acq_thread"]
-    # the sliced indication is allocated with its actual size (24 + 64 n bytes) and filled through a VBIPROXY_MSG pointer (992 byte type):
-    # CBMC flags the dereference of the oversized type; the bytes actually accessed are checked by the array-bounds / memcpy checks and
-    # by the send() model, which reads all n bytes it is given
-    IGN = UB_IGNORE + [r"vbi_proxyd_send_sliced:dereference failure: pointer outside object bounds in p_msg->body"]
-    common = dict(harness="h_c18.c", units=U, models=M, stubs=STUBS, patch=patch, ignore=IGN, remove_bodies=RB)
+    common = dict(harness="h_c18.c", units=U, models=M, stubs=C18_STUBS, ignore=UB_IGNORE, remove_bodies=RB)
     g = lambda **kw: dict(kw)
     INV = ["queue invariant (asserted again after every step): every queued frame is referenced exactly by the clients whose cursor is at or before it, "
-           "cursors point into the queue of their device, no buffer both queued and free, lists acyclic; <= 1 token owner; device open <=> capture present"]
+           "cursors point into the queue of their device, no buffer both queued and free, lists acyclic, no cursor on a closed device; <= 1 token owner; "
+           "device open <=> capture present"]
+    uw = {"memcmp.0": 66, "_vbi_strlcpy.0": 130}
+
+    def seq(sched, **kw):
+        d = dict(("E%d" % i, e) for i, e in enumerate(sched))
+        d.update(kw)
+        return d
+
+    SEQ_DEF = dict(W_MAXLINES=1, C19_MAXLINES=1, W_NBUF=3, C19_SENDBYTES=88, C19_SENDLOG=8, C19_NIO=8, C19_NUPD=8, NCL=2, NQ=0)
+    SEQ_UW = dict(uw); SEQ_UW.update({"c19_log_send.0": 89, "c19_log_send.1": 9})
+    SEQ_ENC = ["vbi_proxyd_forward_data", "vbi_proxy_queue_get_free", "vbi_proxy_queue_force_free", "vbi_proxyd_send_sliced", "vbi_proxy_queue_release_sliced",
+               "vbi_proxyd_close", "vbi_proxy_msg_write", "vbi_proxy_msg_handle_write", "vbi_proxyd_take_message(SERVICE_REQ)", "vbi_proxyd_take_service_req",
+               "vbi_proxyd_update_services", "vbi_proxy_queue_allocate", "vbi_proxy_stop_acquisition", "vbi_proxyd_channel_update"]
+    SEQ_BOUNDS = ("<= 8 events, 2..3 clients, 3 two-line buffers; schedule, service sets (client i subscribed to SVCi, line j of every frame has id LIDj) and the device's "
+                  "answers to service re-computations are concrete (grid) - a symbolic schedule or subscription merges pointer states (first version: > 20 GB for "
+                  "4 events); frame payload, time stamps, clock symbolic; sockets take whole messages")
+    SEQ_OUT = ("partial writes; channel/token events inside the schedule (C19); CONNECT_REQ inside the schedule (state after CONNECT constructed directly); "
+               "frames are filtered with the services granted at DELIVERY time (the daemon's choice when a re-computation changes a grant in between)")
+    # schedules: 1 frame, 9 device idle, 2/3/8 client 0/1/2 writable, 4/5 client 0/1 disconnects, 6/7 client 0/1 SERVICE_REQ
+    sched_q = [
+        seq((1, 1, 2, 3)),                       # two frames, both read
+        seq((1, 2, 1, 3, 2)),                    # interleaved readers
+        seq((1, 4, 1, 3)),                       # disconnect with a frame pending, the other goes on
+        seq((1, 1, 5, 2, 1, 2)),                 # disconnect of the second client
+        seq((1, 1, 1, 1, 2, 3)),                 # overflow: oldest frame lost by both
+        seq((1, 2, 1, 2, 1, 2, 1, 3)),           # stalled client 1: client 0 loses nothing, client 1 only the oldest
+        seq((1, 7, 3, 1, 3, 2)),                 # SERVICE_REQ of client 1 with a frame pending: own frame dropped, client 0 keeps its frame
+        seq((1, 6, 1, 2, 3), SREQ="0x3"),        # SERVICE_REQ of client 0
+        seq((1, 1, 2, 3, 8), NCL=3),             # three clients, third gets both lines
+        seq((1, 9, 2, 1, 3), SVC1="0x18"),       # client 1 subscribed to a service no line carries: frames with zero lines, still every frame once
+    ]
+    sched_t = sched_q + [
+        seq((1, 1, 3, 2)), seq((1, 3, 1, 2)), seq((2, 1, 1, 2)), seq((1, 1, 1, 2, 1, 3)), seq((1, 2, 1, 1, 1, 1, 3, 2)),
+        seq((1, 1, 4, 1, 1, 3)), seq((1, 5, 1, 1, 1, 1, 2)), seq((1, 7, 1, 6, 2, 3, 1, 2)), seq((1, 1, 8, 1, 1, 3, 2, 8), NCL=3),
+        seq((1, 4, 1, 8, 3), NCL=3), seq((1, 1, 2, 3), W_MAXLINES=3, C19_MAXLINES=3, C19_SENDBYTES=216),
+        seq((1, 1, 1, 2, 3), W_NBUF=2), seq((1, 2, 1, 1, 2, 3), W_NBUF=2), seq((1, 1, 1, 3, 2), W_NBUF=1),
+    ]
+    # the device answers a re-computation with "nothing" for some client (norm change, conflicting services of an earlier client)
+    revoke_q = [
+        seq((1, 7, 1, 3, 2), REVOKE=1),          # G: client 0 (frame pending) loses its services while client 1 re-requests; next frame; client 1 reads; client 0 reads
+        seq((1, 2, 1, 5, 2), REVOKE=1),          # K: client 1 leaves, client 0 (frame pending) is granted nothing any more: device closes; client 0 writable
+        seq((1, 7, 3, 2, 1, 2, 3), REVOKE=2),    # the requester itself is granted nothing: it gets no more frames, client 0 all
+    ]
+    revoke_t = revoke_q + [seq((1, 1, 7, 1, 3, 2, 1, 2), REVOKE=1), seq((1, 6, 2, 1, 3), REVOKE=3, SREQ="0x3"), seq((1, 4, 3, 1, 3), REVOKE=1),
+                           seq((1, 1, 7, 1, 1, 3, 2), REVOKE=1)]
+
     obs = [
-        Ob("queue_capture_step", func="h_fwd", unwind=6, unwindset={"memcmp.0": 66},
+        Ob("queue_capture_step", func="h_fwd", unwind=6, unwindset=uw,
            desc="queue INV-STEP, capture: vbi_proxyd_forward_data from every well-formed queue state (3 buffers, NQ queued, cursors of <= 3 clients symbolic), the device "
                 "delivering an arbitrary frame (0..max lines, symbolic time stamp), a timeout or an error: the frame is queued exactly once at the tail, referenced by "
-                "exactly the subscribed clients (FORWARD, services granted), with the captured line count and time stamp; clients with nothing pending get it as next frame, "
-                "all other cursors and the order of older frames are unchanged; without a free buffer only the oldest frame is dropped and only its readers move on; "
-                "queue invariant kept, no mutex left locked",
+                "exactly the clients that will walk onto it (FORWARD and services granted, or frames still pending), with the captured line count, lines and time stamp; "
+                "clients with nothing pending get it as next frame, all other cursors and the order of older frames are unchanged; without a free buffer only the oldest "
+                "frame is dropped and only its readers move on; queue invariant kept, no mutex left locked",
            encodes=["vbi_proxyd_forward_data", "vbi_proxy_queue_get_free", "vbi_proxy_queue_force_free", "vbi_proxy_queue_release_sliced", "vbi_proxy_queue_add_tail",
                     "vbi_proxy_queue_add_free", "vbi_capture_read_sliced (inout.c)"],
-           bounds="one capture event; 3 one-line buffers (exact-size objects), NQ = 0..3 queued; 2..3 clients; last client on the same or the other device", assumes=INV,
-           outside="raw (VBI_SLICED_VBI_*) forwarding; buffers with more than one line (contents are copied by the device layer, not by this step); acquisition thread",
+           bounds="one capture event; 3 buffers of W_MAXLINES lines (quick: 1), NQ = 0..3 queued; 3 clients; last client on the same or the other device", assumes=INV,
+           outside="raw (VBI_SLICED_VBI_*) forwarding; acquisition thread; a read that yields no frame after the oldest frame was already dropped for it is not judged",
            defines=dict(W_MAXLINES=1, C19_MAXLINES=1, W_NBUF=3),
-           grid=[g(NCL=3, NQ=q, BDEV=b) for q in (0, 1, 2, 3) for b in (0, 1)], quick_grid=[g(NCL=3, NQ=0, BDEV=0), g(NCL=3, NQ=2, BDEV=0), g(NCL=3, NQ=3, BDEV=1)],
+           grid=[g(NCL=3, NQ=q, BDEV=b) for q in (0, 1, 2, 3) for b in (0, 1)] + [g(NCL=3, NQ=q, BDEV=0, W_MAXLINES=2, C19_MAXLINES=2) for q in (1, 3)],
+           quick_grid=[g(NCL=3, NQ=0, BDEV=0), g(NCL=3, NQ=2, BDEV=0), g(NCL=3, NQ=3, BDEV=1)],
            reach=["end", "queued"], timeout=300, mem_gb=3, vin_size=4096, **common),
-        # queue_delivery_step (h_send in the harness: one vbi_proxyd_send_sliced + release from an arbitrary queue state, 2-line frames) is NOT scheduled:
-        # measured 3 encodings, each > 7 GB in propositional reduction without verdict (157..200 s to the memory cap).  The delivery step is covered,
-        # for one-line frames, by seq_schedule below.
-        Ob("seq_schedule", func="h_seq", unwind=6, unwindset={"memcmp.0": 66, "c19_log_send.0": 90, "c19_log_send.1": 6},
-           desc="SEQ against a shadow model: 2 subscribed clients, empty queue, 4 events in the order given by the grid (F = frame captured with <= 1 symbolic line and "
-                "symbolic time stamp, W0/W1 = client idle and writable, D0/D1 = client disconnects): the messages handed to send() for client i are, in capture order, "
-                "exactly once, the frames captured while it was connected, each filtered to its granted services, with the capture time stamp; when the daemon runs out of "
-                "buffers only the oldest frame is lost and only by the clients that had not read it; queue invariant after every event",
-           encodes=["vbi_proxyd_forward_data", "vbi_proxy_queue_get_free", "vbi_proxy_queue_force_free", "vbi_proxyd_send_sliced", "vbi_proxy_queue_release_sliced",
-                    "vbi_proxyd_close", "vbi_proxy_msg_write", "vbi_proxy_msg_handle_write"],
-           bounds="k = 4 events, 2 clients, 3 one-line buffers (exact-size objects; with 2-line buffers one instance needed > 27 GB); schedules enumerated on the grid (not symbolic: a symbolic schedule merges pointer states and stalls symex), "
-                  "all frame data / services symbolic; sockets take whole messages",
-           outside="SERVICE_REQ inside the schedule (step contract in C19 msg_take); partial writes; 3 clients",
-           defines=dict(W_MAXLINES=1, C19_MAXLINES=1, W_NBUF=3, C19_SENDBYTES=88, NCL=2, NQ=0, C19_NIO=4),
-           grid=[g(E0=a, E1=b, E2=c, E3=d) for (a, b, c, d) in ((1, 1, 2, 3), (1, 2, 1, 2), (1, 4, 1, 3), (1, 1, 3, 2), (1, 3, 1, 2), (1, 1, 5, 2), (2, 1, 1, 2))],
-           quick_grid=[g(E0=1, E1=1, E2=2, E3=3), g(E0=1, E1=4, E2=1, E3=3)],
-           reach=["end", "delivered"], timeout=900, mem_gb=6, vin_size=4096, **common),
-        Ob("seq_overflow", func="h_seq", unwind=6, unwindset={"memcmp.0": 66, "c19_log_send.0": 90, "c19_log_send.1": 6},
-           desc="SEQ, stalled client: 2 buffers, three frames captured while client 1 never reads, client 0 reads after each pair: as seq_schedule (a stalled client costs "
-                "the others nothing but the frames the daemon has no buffer for)",
-           encodes=["vbi_proxyd_forward_data", "vbi_proxy_queue_force_free", "vbi_proxyd_send_sliced", "vbi_proxy_queue_release_sliced"],
-           bounds="as seq_schedule with 2 buffers", defines=dict(W_MAXLINES=1, C19_MAXLINES=1, W_NBUF=2, C19_SENDBYTES=88, NCL=2, NQ=0, C19_NIO=4),
-           grid=[g(E0=1, E1=1, E2=1, E3=2), g(E0=1, E1=2, E2=1, E3=1)], quick_grid=[g(E0=1, E1=1, E2=1, E3=2)],
-           reach=["end", "delivered"], timeout=900, mem_gb=6, vin_size=4096, tier="thorough", **common),
+        Ob("delivery_step", func="h_deliver", unwind=6, unwindset=dict(uw, **{"c19_log_send.0": 17, "c19_log_send.1": 5}),
+           desc="queue INV-STEP, delivery: vbi_proxyd_send_sliced + vbi_proxy_queue_release_sliced (paired as in vbi_proxyd_handle_client_sockets) for a client with a "
+                "frame pending, from a queue of NQ frames with symbolic contents, the client's services symbolic: the message is exactly the frame at THAT client's cursor "
+                "- header length/type, capture time stamp, number of lines, and the lines whose id intersects the granted services, all of them, in order, byte for byte - "
+                "nothing is written behind the allocated message, the queued frame is not modified, the cursor moves on by exactly one frame, the frame loses exactly this "
+                "reference (freed iff last reader), no other client is touched, queue invariant kept",
+           encodes=["vbi_proxyd_send_sliced", "vbi_proxy_queue_release_sliced", "vbi_proxy_msg_write", "vbi_proxy_msg_handle_write"],
+           bounds="one delivery; frames of W_MAXLINES lines of which LC carry data (grid); 2 clients with concrete cursors CUR0/CUR1 (grid); socket blocked (message inspected in the write buffer)",
+           assumes=INV + ["the client's line range fixed at subscription (vbi_count) covers the frame (the daemon truncates to it, protecting the client's buffers)"],
+           outside="raw services; frames longer than 3 lines (the filter loop is uniform in the line index: argument, not solver)",
+           defines=dict(W_NBUF=3, NCL=2, C19_NIO=4),
+           grid=[g(W_MAXLINES=2, C19_MAXLINES=2, LC=2, NQ=2, ACT=0, CUR0=0, CUR1=0), g(W_MAXLINES=2, C19_MAXLINES=2, LC=2, NQ=2, ACT=1, CUR0=0, CUR1=1),
+                 g(W_MAXLINES=2, C19_MAXLINES=2, LC=1, NQ=1, ACT=0, CUR0=0, CUR1=9), g(W_MAXLINES=2, C19_MAXLINES=2, LC=0, NQ=1, ACT=0, CUR0=0, CUR1=0),
+                 g(W_MAXLINES=3, C19_MAXLINES=3, LC=3, NQ=2, ACT=0, CUR0=1, CUR1=0), g(W_MAXLINES=3, C19_MAXLINES=3, LC=3, NQ=1, ACT=1, CUR0=9, CUR1=0),
+                 g(W_MAXLINES=3, C19_MAXLINES=3, LC=2, NQ=3, ACT=0, CUR0=0, CUR1=2)],
+           quick_grid=[g(W_MAXLINES=2, C19_MAXLINES=2, LC=2, NQ=2, ACT=0, CUR0=0, CUR1=0), g(W_MAXLINES=2, C19_MAXLINES=2, LC=2, NQ=2, ACT=1, CUR0=0, CUR1=1),
+                       g(W_MAXLINES=3, C19_MAXLINES=3, LC=3, NQ=1, ACT=1, CUR0=9, CUR1=0)],
+           reach=["end", "filtered"], timeout=300, mem_gb=4, vin_size=4096, **common),
+        Ob("service_step", func="h_svc", unwind=6, unwindset=uw,
+           desc="service INV-STEP: vbi_proxyd_take_service_req (the body of CONNECT_REQ and SERVICE_REQ) with symbolic services at strictness STRICTV, from every invariant "
+                "state (other client symbolic; device open with NQ frames queued, or closed), the device granting an arbitrary subset on every call: the request moves to the "
+                "given level only; the device is asked for exactly the union of the requests of its clients; every client is granted a subset of its request; the device's "
+                "service set is the union of the grants; it is opened at most once, open afterwards iff something is granted and closed otherwise; while it stays open nobody "
+                "else's cursor moves; when it closes no cursor survives (the buffers are freed); queue invariant kept",
+           encodes=["vbi_proxyd_take_service_req", "vbi_proxyd_update_services", "vbi_proxy_start_acquisition", "vbi_proxy_stop_acquisition", "vbi_proxy_queue_allocate",
+                    "vbi_proxyd_update_scanning", "vbi_capture_update_services / _parameters / _fd (inout.c)"],
+           bounds="one request; 2 clients (acting client first or last); -buffers 1, every client asks for 1 buffer; 2 one-line buffers; strictness on the grid; "
+                  "device closed: outcome of opening it case-split (DEVCASE 0 ok, 3 cannot be opened)", assumes=INV,
+           outside="acquisition-thread devices; raw services (buffers with raw sub-buffer); more than 2 clients",
+           defines=dict(W_MAXLINES=1, C19_MAXLINES=1, W_NBUF=2, NCL=2),
+           grid=[g(ACT=a, DEVOPEN=1, NQ=q, STRICTV=s, BDEV=0) for (a, q, s) in ((0, 1, 0), (1, 1, 2), (0, 0, -1), (1, 2, 1), (0, 2, 0))] +
+                [g(ACT=a, DEVOPEN=0, NQ=0, STRICTV=s, BDEV=0, DEVCASE=c) for (a, s, c) in ((0, 0, 0), (1, 1, 0), (0, 2, 3), (1, -1, 3))] +
+                [g(ACT=0, DEVOPEN=1, NQ=1, STRICTV=0, BDEV=1)],
+           quick_grid=[g(ACT=0, DEVOPEN=1, NQ=1, STRICTV=0, BDEV=0), g(ACT=1, DEVOPEN=1, NQ=1, STRICTV=2, BDEV=0), g(ACT=0, DEVOPEN=0, NQ=0, STRICTV=0, BDEV=0, DEVCASE=0),
+                       g(ACT=1, DEVOPEN=0, NQ=0, STRICTV=1, BDEV=0, DEVCASE=3)],
+           reach=["end", "open", "closed"], timeout=400, mem_gb=4, vin_size=4096, **common),
+        Ob("seq_schedule", func="h_seq", unwind=10, unwindset=SEQ_UW,
+           desc="SEQ against a shadow model: clients connected and subscribed (client i to SVCi), empty queue, events in the order given by the grid (1 frame captured with "
+                "two symbolic lines and symbolic time stamp, 9 device idle, 2/3/8 client 0/1/2 writable, 4/5 client 0/1 disconnects, 6/7 client 0/1 sends SERVICE_REQ): the "
+                "messages handed to send() for client i are - after a pending reply - in capture order, exactly once, the frames captured while it was subscribed, each "
+                "filtered to its granted services, with the capture time stamp; nothing else is sent; when the daemon runs out of buffers only the oldest frame is lost and "
+                "only by the clients that had not read it (a stalled client costs the others nothing); a client changing its services loses only its own queued frames; "
+                "queue invariant and lock discipline after every event",
+           encodes=SEQ_ENC, bounds=SEQ_BOUNDS, outside=SEQ_OUT, assumes=["state after CONNECT_REQ constructed directly (services at strictness 0, all granted)"],
+           defines=SEQ_DEF, grid=sched_t, quick_grid=sched_q,
+           reach=["end", "delivered"], timeout=300, mem_gb=4, vin_size=4096, **common),
+        Ob("seq_revoke", func="h_seq", unwind=10, unwindset=SEQ_UW,
+           desc="SEQ, the device revokes services: as seq_schedule, but the k-th service re-computation call of the run (bit k of REVOKE) is answered with 'nothing' - what a "
+                "norm change or a conflicting request of a client earlier in the list does to vbi_capture_update_services.  A client that loses all its services while frames "
+                "are pending still gets those frames (and the frames captured until its queue is drained, without lines), every other client gets every frame once; if the "
+                "device is closed because nothing is granted any more, no client keeps a cursor into the freed queue",
+           encodes=SEQ_ENC, bounds=SEQ_BOUNDS, outside=SEQ_OUT, assumes=["state after CONNECT_REQ constructed directly (services at strictness 0, all granted)"],
+           defines=SEQ_DEF, grid=revoke_t, quick_grid=revoke_q,
+           reach=["end", "delivered"], timeout=300, mem_gb=4, vin_size=4096, **common),
     ]
     return obs
